@@ -894,9 +894,162 @@ fn run_xfer_proc(ws: &[&str]) -> (String, String) {
     (obs, oracle)
 }
 
+/// `xfer … mid=M`: a genuinely concurrent pipeline `writer | M × forwarder | reader` over M + 1 pipes, every
+/// stage a task of one `Concurrent` (so several tasks of one process wait for different descriptors at the same
+/// time); a forwarder is the loop of `cat`: `read` into a buffer of `rk` bytes (0 = 1024), `write_all` of what it
+/// got, exit at `Ok(0)` closing both ends.  Same seeded executor as `run_xfer`.  Model: `Chain.lean`.
+fn run_xfer_chain(ws: &[&str]) -> (String, String) {
+    let n = kv_n(ws, "n");
+    let mid = kv_n(ws, "mid");
+    let data = payload(n, kv_n(ws, "pat"), kv_n(ws, "per"), kv_n(ws, "nl"));
+    let wk = kv_n(ws, "wk");
+    let rk = kv_n(ws, "rk");
+    let seed = kv_n(ws, "seed") as u64;
+    let mut rng = Rng::new(seed ^ 0xC14_0003);
+    let system = Rc::new(Concurrent::new(VirtualSystem::new()));
+    let pipes: Vec<(Fd, Fd)> = (0..=mid).map(|_| system.pipe().unwrap()).collect();
+    let wres: Rc<Cell<Option<&'static str>>> = Rc::new(Cell::new(None));
+    let rres: Rc<Cell<Option<&'static str>>> = Rc::new(Cell::new(None));
+    let fres: Rc<RefCell<Vec<&'static str>>> = Rc::new(RefCell::new(vec!["?"; mid]));
+    let received: Rc<RefCell<Vec<u8>>> = Rc::new(RefCell::new(vec![]));
+    let ys: Vec<usize> = (0..mid + 2).map(|_| [0, 0, 1, 2, 5][rng.below(5)]).collect();
+    let mut tasks: Vec<Option<Pin<Box<dyn Future<Output = ()>>>>> = vec![];
+    {
+        let system = Rc::clone(&system);
+        let data = data.clone();
+        let wres = Rc::clone(&wres);
+        let wfd = pipes[0].1;
+        let wy = ys[0];
+        tasks.push(Some(Box::pin(async move {
+            let piece = if wk == 0 { data.len().max(1) } else { wk };
+            let mut out = "closed";
+            for chunk in data.chunks(piece) {
+                yields(wy).await;
+                if system.write_all(wfd, chunk).await.is_err() {
+                    out = "failed";
+                    break;
+                }
+            }
+            system.close(wfd).ok();
+            wres.set(Some(out));
+        })));
+    }
+    for i in 0..mid {
+        let system = Rc::clone(&system);
+        let fres = Rc::clone(&fres);
+        let rfd = pipes[i].0;
+        let wfd = pipes[i + 1].1;
+        let fy = ys[i + 1];
+        tasks.push(Some(Box::pin(async move {
+            let mut buf = vec![0u8; if rk == 0 { 1024 } else { rk }];
+            let out = loop {
+                yields(fy).await;
+                match system.read(rfd, &mut buf).await {
+                    Ok(0) => break "closed",
+                    Ok(m) => {
+                        if system.write_all(wfd, &buf[..m]).await.is_err() {
+                            break "failed";
+                        }
+                    }
+                    Err(_) => break "error",
+                }
+            };
+            system.close(rfd).ok();
+            system.close(wfd).ok();
+            fres.borrow_mut()[i] = out;
+        })));
+    }
+    {
+        let system = Rc::clone(&system);
+        let rres = Rc::clone(&rres);
+        let received = Rc::clone(&received);
+        let rfd = pipes[mid].0;
+        let ry = ys[mid + 1];
+        tasks.push(Some(Box::pin(async move {
+            if rk == 0 {
+                yields(ry).await;
+                let mut buf = vec![];
+                let r = system.read_all_to(rfd, &mut buf).await;
+                *received.borrow_mut() = buf;
+                rres.set(Some(if r.is_ok() { "done" } else { "error" }));
+            } else {
+                let mut buf = vec![0u8; rk];
+                loop {
+                    yields(ry).await;
+                    match system.read(rfd, &mut buf).await {
+                        Ok(0) => {
+                            rres.set(Some("done"));
+                            break;
+                        }
+                        Ok(m) => received.borrow_mut().extend_from_slice(&buf[..m]),
+                        Err(_) => {
+                            rres.set(Some("error"));
+                            break;
+                        }
+                    }
+                }
+            }
+            system.close(rfd).ok();
+        })));
+    }
+    let nt = tasks.len();
+    let flags: Vec<Arc<Flag>> = (0..nt).map(|_| Arc::new(Flag(AtomicBool::new(true)))).collect();
+    let wakers: Vec<Waker> = flags.iter().map(|f| Waker::from(Arc::clone(f))).collect();
+    let mut budget = (mid + 2) * (60 * n + 5000);
+    // the most bytes ever seen in flight inside the pipes + what the reader has so far never exceeds the payload
+    loop {
+        if tasks.iter().all(|t| t.is_none()) {
+            break;
+        }
+        budget -= 1;
+        if budget == 0 {
+            return ("TIMEOUT".into(), "FAIL:livelock".into());
+        }
+        if rng.chance(1, 6) {
+            system.peek();
+        }
+        let mut runnable: Vec<usize> =
+            (0..nt).filter(|&t| tasks[t].is_some() && flags[t].0.load(Ordering::SeqCst)).collect();
+        if runnable.is_empty() {
+            system.peek();
+            runnable = (0..nt).filter(|&t| tasks[t].is_some() && flags[t].0.load(Ordering::SeqCst)).collect();
+            if runnable.is_empty() {
+                return ("TIMEOUT".into(), "FAIL:deadlock".into());
+            }
+        }
+        let t = *rng.pick(&runnable);
+        flags[t].0.store(false, Ordering::SeqCst);
+        let mut cx = Context::from_waker(&wakers[t]);
+        if tasks[t].as_mut().unwrap().as_mut().poll(&mut cx).is_ready() {
+            tasks[t] = None;
+        }
+    }
+    let got = received.borrow().clone();
+    let f = fres.borrow();
+    let ftxt = if f.iter().all(|x| *x == "closed") { "closed" } else { f.iter().find(|x| **x != "closed").unwrap() };
+    let obs = format!(
+        "recv={}:{} w={} f={} r={}",
+        got.len(),
+        hash_bytes(&got),
+        wres.get().unwrap_or("?"),
+        ftxt,
+        rres.get().unwrap_or("?")
+    );
+    let oracle = if got != data {
+        let at = got.iter().zip(data.iter()).position(|(a, b)| a != b).unwrap_or(got.len().min(data.len()));
+        format!("FAIL:data-differs-at-{at}")
+    } else {
+        "ok".to_string()
+    };
+    (obs, oracle)
+}
+
 fn run_xfer(ws: &[&str]) -> (String, String) {
     if kv(ws, "mode") == Some("proc") {
         return run_xfer_proc(ws);
+    }
+    if kv_n(ws, "mid") > 0 {
+        return run_xfer_chain(ws);
     }
     let n = kv_n(ws, "n");
     let data = payload(n, kv_n(ws, "pat"), kv_n(ws, "per"), kv_n(ws, "nl"));
@@ -2365,5 +2518,20 @@ fn main() {
         let n = rng.below(4 * PIPE_SIZE + 3);
         let case = gen_sh(&mut rng, n);
         run(&case, false);
+    }
+
+    // (ii-a'') wave 3: concurrent pipelines `writer | M x forwarder | reader` (M = 1..3) as tasks of one Concurrent;
+    // own generator stream so that the cases of the earlier families stay what they were
+    let mut rng3 = Rng::new(opts.seed ^ 0xC14_0300);
+    for &n in &sizes {
+        for _ in 0..(if thorough { 30 } else { 2 }) {
+            let case = gen_xfer(&mut rng3, n);
+            run(&format!("{case} mid={}", 1 + rng3.below(3)), false);
+        }
+    }
+    for _ in 0..(if thorough { 4_000 } else { 120 }) {
+        let n = rng3.below(4 * PIPE_SIZE + 3);
+        let case = gen_xfer(&mut rng3, n);
+        run(&format!("{case} mid={}", 1 + rng3.below(3)), false);
     }
 }
